@@ -9,6 +9,6 @@ ocamlfind ocamlopt -w -a -c model.mli
 ocamlfind ocamlopt -O2 -w -a -c model.ml 2>/dev/null || ocamlfind ocamlopt -w -a -c model.ml
 ocamlfind ocamlopt -w -a -c drv.ml
 OPS=""
-for f in ops_*.ml; do ocamlfind ocamlopt -w -a -c "$f"; OPS="$OPS ${f%.ml}.cmx"; done
+for f in ops_core.ml ops_schemes.ml $(ls ops_*.ml | grep -v -e ops_core.ml -e ops_schemes.ml); do ocamlfind ocamlopt -w -a -c "$f"; OPS="$OPS ${f%.ml}.cmx"; done
 ocamlfind ocamlopt -w -a -c main.ml
 ocamlfind ocamlopt -w -a -o modelrun model.cmx drv.cmx $OPS main.cmx
